@@ -186,14 +186,27 @@ func isReaderGone(exc Exception) bool {
 }
 
 // Reports whether err is a ReaderGone error, or a combination of several
-// errors (like what peach returns when more than one callback fails) that are
-// all ReaderGone errors.
+// errors (like what peach or run-parallel returns when more than one callback
+// fails) that are all ReaderGone errors.
 func isAllReaderGone(err error) bool {
 	switch err := err.(type) {
 	case errs.ReaderGone:
 		return true
 	case Exception:
 		return isAllReaderGone(err.Reason())
+	case PipelineError:
+		// What run-parallel returns when more than one function fails.
+		n := 0
+		for _, e := range err.Errors {
+			if e == nil || e.Reason() == nil {
+				continue
+			}
+			if !isAllReaderGone(e.Reason()) {
+				return false
+			}
+			n++
+		}
+		return n > 0
 	case interface{ Unwrap() []error }:
 		errors := err.Unwrap()
 		for _, e := range errors {
